@@ -146,7 +146,12 @@ def switch_groups(body, switch_regex, label_regex, resolve, what):
 
 
 def gen():
+    """Returns (text, partial): the Coq text and a list of (group, error) for groups that could not be generated.
+    Every group is translated independently: a construct the patterns no longer recognise leaves ITS definitions out of
+    Generated.v (with a comment saying so), so that exactly the Coq files - and hence the properties - that depend on them stop
+    compiling, instead of every check failing."""
     out = []
+    partial = []
     w = out.append
     w("(* GENERATED by tools/gen_from_source.py from %s -- do not edit, not committed *)" % REPO)
     w("From Coq Require Import NArith ZArith List String.")
@@ -154,71 +159,110 @@ def gen():
     w("Local Open Scope N_scope.")
     w("")
     enums = {}
-    for hdr in ["include/gdstk/oasis.hpp", "include/gdstk/gdsii.hpp", "include/gdstk/repetition.hpp",
-                "include/gdstk/utils.hpp", "include/gdstk/pathcommon.hpp", "include/gdstk/property.hpp",
-                "include/gdstk/polygon.hpp", "include/gdstk/reference.hpp", "include/gdstk/clipper_tools.hpp"]:
+
+    def group(name, fn):
+        lines = []
         try:
-            e = parse_enums(read(hdr))
-        except FileNotFoundError:
-            raise GenError("missing header " + hdr)
-        enums.update(e)
-    for need in ["OasisDataType", "OasisDirection", "OasisPointList", "OasisRecord", "OasisRepetition",
-                 "GdsiiRecord", "GdsiiDataType", "RepetitionType", "ErrorCode"]:
-        if need not in enums:
-            raise GenError("enum %s not found" % need)
-    for name in sorted(enums):
-        w("(* enum %s *)" % name)
-        for mem, val in enums[name]:
-            w("Definition %s_%s : N := %d." % (name, mem, val))
-        w("Definition %s_members : list (string * N) := [%s]." % (
-            name, "; ".join('("%s"%%string, %d)' % (m, v) for m, v in enums[name])))
+            fn(lines.append)
+        except GenError as e:
+            partial.append((name, str(e)))
+            w("(* GROUP %s NOT GENERATED: %s *)" % (name, str(e).replace("(*", "( *").replace("*)", "* )")))
+            w("")
+            return
+        except (KeyError, IndexError, ValueError, FileNotFoundError) as e:
+            partial.append((name, "%s: %s" % (type(e).__name__, e)))
+            w("(* GROUP %s NOT GENERATED: %s *)" % (name, type(e).__name__))
+            w("")
+            return
+        out.extend(lines)
         w("")
-    utils = read("include/gdstk/utils.hpp")
-    for d in ["GDSTK_MIN_POINTS", "GDSTK_MAP_GROWTH_FACTOR", "GDSTK_INITIAL_MAP_CAPACITY",
-              "GDSTK_MAP_CAPACITY_THRESHOLD", "HASH_FNV_PRIME", "HASH_FNV_OFFSET"]:
-        w("Definition %s : N := %d." % (d, define(utils, d)))
-    w("")
-    # --- OASIS integer codec literals
-    oas = strip_comments(read("src/oasis.cpp"))
-    b = func_body(oas, r"uint64_t\s+oasis_read_unsigned_integer\s*\(OasisStream&\s*in\)\s*\{")
-    w("Definition oas_ru_mask : N := %d." % find_int(b, r"result\s*=\s*\(uint64_t\)\(byte\s*&\s*(0x[0-9A-Fa-f]+)\)", "ru mask"))
-    w("Definition oas_ru_cont : N := %d." % find_int(b, r"while\s*\(byte\s*&\s*(0x[0-9A-Fa-f]+)\)", "ru cont"))
-    w("Definition oas_ru_first_bits : N := %d." % find_int(b, r"num_bits\s*=\s*(\d+)\s*;", "ru first bits"))
-    w("Definition oas_ru_limit_bits : N := %d." % find_int(b, r"num_bits\s*==\s*(\d+)", "ru limit"))
-    w("Definition oas_ru_limit_byte : N := %d." % find_int(b, r"byte\s*>\s*(\d+)\)", "ru limit byte"))
-    w("Definition oas_ru_step : N := %d." % find_int(b, r"num_bits\s*\+=\s*(\d+)", "ru step"))
-    b = func_body(oas, r"static\s+uint8_t\s+oasis_read_int_internal\s*\(")
-    w("Definition oas_ri_first_bits : N := %d." % find_int(b, r"num_bits\s*=\s*(\d+)\s*-\s*skip_bits", "ri first"))
-    w("Definition oas_ri_guard_bits : N := %d." % find_int(b, r"num_bits\s*>\s*(\d+)\s*&&", "ri guard"))
-    w("Definition oas_ri_shift_base : N := %d." % find_int(b, r"byte\s*>>\s*\((\d+)\s*-\s*num_bits\)", "ri shift"))
-    w("Definition oas_ri_step : N := %d." % find_int(b, r"num_bits\s*\+=\s*(\d+)", "ri step"))
-    b = func_body(oas, r"void\s+oasis_write_unsigned_integer\s*\(")
-    w("Definition oas_wu_mask : N := %d." % find_int(b, r"value\s*&\s*(0x[0-9A-Fa-f]+)\)\s*\}", "wu mask"))
-    w("Definition oas_wu_shift : N := %d." % find_int(b, r"value\s*>>=\s*(\d+)", "wu shift"))
-    w("Definition oas_wu_cont : N := %d." % find_int(b, r"\|=\s*(0x[0-9A-Fa-f]+)", "wu cont"))
-    w("")
+
+    def g_enums(w):
+        for hdr in ["include/gdstk/oasis.hpp", "include/gdstk/gdsii.hpp", "include/gdstk/repetition.hpp",
+                    "include/gdstk/utils.hpp", "include/gdstk/pathcommon.hpp", "include/gdstk/property.hpp",
+                    "include/gdstk/polygon.hpp", "include/gdstk/reference.hpp", "include/gdstk/clipper_tools.hpp"]:
+            try:
+                e = parse_enums(read(hdr))
+            except FileNotFoundError:
+                raise GenError("missing header " + hdr)
+            enums.update(e)
+        for need in ["OasisDataType", "OasisDirection", "OasisPointList", "OasisRecord", "OasisRepetition",
+                     "GdsiiRecord", "GdsiiDataType", "RepetitionType", "ErrorCode"]:
+            if need not in enums:
+                raise GenError("enum %s not found" % need)
+        for name in sorted(enums):
+            w("(* enum %s *)" % name)
+            for mem, val in enums[name]:
+                w("Definition %s_%s : N := %d." % (name, mem, val))
+            w("Definition %s_members : list (string * N) := [%s]." % (
+                name, "; ".join('("%s"%%string, %d)' % (m, v) for m, v in enums[name])))
+            w("")
+    group("enums", g_enums)
+
+    def g_tuning(w):
+        utils = read("include/gdstk/utils.hpp")
+        for d in ["GDSTK_MIN_POINTS", "GDSTK_MAP_GROWTH_FACTOR", "GDSTK_INITIAL_MAP_CAPACITY",
+                  "GDSTK_MAP_CAPACITY_THRESHOLD", "HASH_FNV_PRIME", "HASH_FNV_OFFSET"]:
+            w("Definition %s : N := %d." % (d, define(utils, d)))
+    group("tuning-constants", g_tuning)
+
+    # --- OASIS integer codec literals (one group per function)
+    def g_oas_ru(w):
+        oas = strip_comments(read("src/oasis.cpp"))
+        b = func_body(oas, r"uint64_t\s+oasis_read_unsigned_integer\s*\(OasisStream&\s*in\)\s*\{")
+        w("Definition oas_ru_mask : N := %d." % find_int(b, r"result\s*=\s*\(uint64_t\)\(byte\s*&\s*(0x[0-9A-Fa-f]+)\)", "ru mask"))
+        w("Definition oas_ru_cont : N := %d." % find_int(b, r"while\s*\(byte\s*&\s*(0x[0-9A-Fa-f]+)\)", "ru cont"))
+        w("Definition oas_ru_first_bits : N := %d." % find_int(b, r"num_bits\s*=\s*(\d+)\s*;", "ru first bits"))
+        w("Definition oas_ru_limit_bits : N := %d." % find_int(b, r"num_bits\s*==\s*(\d+)", "ru limit"))
+        w("Definition oas_ru_limit_byte : N := %d." % find_int(b, r"byte\s*>\s*(\d+)\)", "ru limit byte"))
+        w("Definition oas_ru_step : N := %d." % find_int(b, r"num_bits\s*\+=\s*(\d+)", "ru step"))
+    group("oasis_read_unsigned_integer", g_oas_ru)
+
+    def g_oas_ri(w):
+        oas = strip_comments(read("src/oasis.cpp"))
+        b = func_body(oas, r"static\s+uint8_t\s+oasis_read_int_internal\s*\(")
+        w("Definition oas_ri_first_bits : N := %d." % find_int(b, r"num_bits\s*=\s*(\d+)\s*-\s*skip_bits", "ri first"))
+        w("Definition oas_ri_guard_bits : N := %d." % find_int(b, r"num_bits\s*>\s*(\d+)\s*&&", "ri guard"))
+        w("Definition oas_ri_shift_base : N := %d." % find_int(b, r"byte\s*>>\s*\((\d+)\s*-\s*num_bits\)", "ri shift"))
+        w("Definition oas_ri_step : N := %d." % find_int(b, r"num_bits\s*\+=\s*(\d+)", "ri step"))
+    group("oasis_read_int_internal", g_oas_ri)
+
+    def g_oas_wu(w):
+        oas = strip_comments(read("src/oasis.cpp"))
+        b = func_body(oas, r"void\s+oasis_write_unsigned_integer\s*\(")
+        w("Definition oas_wu_mask : N := %d." % find_int(b, r"value\s*&\s*(0x[0-9A-Fa-f]+)\)\s*\}", "wu mask"))
+        w("Definition oas_wu_shift : N := %d." % find_int(b, r"value\s*>>=\s*(\d+)", "wu shift"))
+        w("Definition oas_wu_cont : N := %d." % find_int(b, r"\|=\s*(0x[0-9A-Fa-f]+)", "wu cont"))
+    group("oasis_write_unsigned_integer", g_oas_wu)
+
     # --- sort thresholds
-    srt = strip_comments(read("include/gdstk/sort.hpp"))
-    b = func_body(srt, r"void\s+intro_sort\s*\(")
-    w("Definition sort_insertion_threshold : N := %d." % find_int(b, r"count\s*<=\s*(\d+)\s*\)\s*\{\s*insertion_sort", "sort threshold"))
-    w("")
+    def g_sort(w):
+        srt = strip_comments(read("include/gdstk/sort.hpp"))
+        b = func_body(srt, r"void\s+intro_sort\s*\(")
+        w("Definition sort_insertion_threshold : N := %d." % find_int(b, r"count\s*<=\s*(\d+)\s*\)\s*\{\s*insertion_sort", "sort threshold"))
+    group("sort-threshold", g_sort)
+
     # --- remove_property: is the head loop guarded against emptying the list?
-    prop = strip_comments(read("src/property.cpp"))
-    b = func_body(prop, r"uint64_t\s+remove_property\s*\(")
-    guarded = re.search(r"if\s*\(\s*!all_occurences\s*\|\|\s*properties\s*==\s*NULL\s*\)\s*return", b) is not None or \
-        re.search(r"while\s*\(\s*properties\s*&&", b) is not None and re.search(r"if\s*\(\s*properties\s*==\s*NULL\s*\)\s*return", b) is not None
-    w("Definition remove_property_guard : bool := %s." % ("true" if guarded else "false"))
-    w("")
+    def g_remove_property(w):
+        prop = strip_comments(read("src/property.cpp"))
+        b = func_body(prop, r"uint64_t\s+remove_property\s*\(")
+        guarded = re.search(r"if\s*\(\s*!all_occurences\s*\|\|\s*properties\s*==\s*NULL\s*\)\s*return", b) is not None or \
+            re.search(r"while\s*\(\s*properties\s*&&", b) is not None and re.search(r"if\s*\(\s*properties\s*==\s*NULL\s*\)\s*return", b) is not None
+        w("Definition remove_property_guard : bool := %s." % ("true" if guarded else "false"))
+    group("remove_property-guard", g_remove_property)
+
     # --- GDSII real constants
-    gds = strip_comments(read("src/gdsii.cpp"))
-    b = func_body(gds, r"uint64_t\s+gdsii_real_from_double\s*\(")
-    w("Definition gds_real_bias : N := %d." % find_int(b, r"\(uint8_t\)\((\d+)\s*\+\s*exponent\)", "bias"))
-    w("Definition gds_real_digits : N := %d." % find_int(b, r"pow\(16,\s*(\d+)\s*-\s*exponent\)", "digits"))
-    w("Definition gds_real_mant_mask : N := %d." % find_int(b, r"mantissa\s*&\s*(0x[0-9A-Fa-f]+)", "mant mask"))
-    w("")
+    def g_gds_real(w):
+        gds = strip_comments(read("src/gdsii.cpp"))
+        b = func_body(gds, r"uint64_t\s+gdsii_real_from_double\s*\(")
+        w("Definition gds_real_bias : N := %d." % find_int(b, r"\(uint8_t\)\((\d+)\s*\+\s*exponent\)", "bias"))
+        w("Definition gds_real_digits : N := %d." % find_int(b, r"pow\(16,\s*(\d+)\s*-\s*exponent\)", "digits"))
+        w("Definition gds_real_mant_mask : N := %d." % find_int(b, r"mantissa\s*&\s*(0x[0-9A-Fa-f]+)", "mant mask"))
+    group("gdsii_real_from_double", g_gds_real)
+
     # --- dispatch structure of the GDSII readers: case labels of their record switches, grouped by shared body
-    gr = dict(enums["GdsiiRecord"])
     def res_enum(lbl):
+        gr = dict(enums["GdsiiRecord"])
         nm = lbl.split("::")[-1]
         if nm not in gr:
             raise GenError("unknown GdsiiRecord member " + nm)
@@ -227,50 +271,66 @@ def gen():
         return int(lbl, 0)
     def fmt(groups):
         return "[" + "; ".join("[" + "; ".join(str(x) for x in g) + "]" for g in groups) + "]"
-    lib0 = strip_comments(read("src/library.cpp"))
-    b = func_body(lib0, r"Library\s+read_gds\s*\(")
-    w("Definition read_gds_case_groups : list (list N) := %s." % fmt(
-        switch_groups(b, r"switch\s*\(\s*\(GdsiiRecord\)\s*\(?buffer\[2\]\)?\s*\)\s*\{", r"GdsiiRecord::\w+", res_enum, "read_gds")))
-    b = func_body(lib0, r"ErrorCode\s+gds_info\s*\(")
-    w("Definition gds_info_case_groups : list (list N) := %s." % fmt(
-        switch_groups(b, r"switch\s*\(\s*\(GdsiiRecord\)\s*\(?buffer\[2\]\)?\s*\)\s*\{", r"GdsiiRecord::\w+", res_enum, "gds_info")))
-    raw0 = strip_comments(read("src/rawcell.cpp"))
-    b = func_body(raw0, r"Map<RawCell\*>\s+read_rawcells\s*\(")
-    w("Definition read_rawcells_case_groups : list (list N) := %s." % fmt(
-        switch_groups(b, r"switch\s*\(\s*buffer\[2\]\s*\)\s*\{", r"0x[0-9A-Fa-f]+|\d+|GdsiiRecord::\w+", lambda l: res_enum(l) if "::" in l else res_hex(l), "read_rawcells")))
+
+    def g_read_gds(w):
+        lib0 = strip_comments(read("src/library.cpp"))
+        b = func_body(lib0, r"Library\s+read_gds\s*\(")
+        w("Definition read_gds_case_groups : list (list N) := %s." % fmt(
+            switch_groups(b, r"switch\s*\(\s*\(GdsiiRecord\)\s*\(?buffer\[2\]\)?\s*\)\s*\{", r"GdsiiRecord::\w+", res_enum, "read_gds")))
+    group("read_gds-switch", g_read_gds)
+
+    def g_gds_info(w):
+        lib0 = strip_comments(read("src/library.cpp"))
+        b = func_body(lib0, r"ErrorCode\s+gds_info\s*\(")
+        w("Definition gds_info_case_groups : list (list N) := %s." % fmt(
+            switch_groups(b, r"switch\s*\(\s*\(GdsiiRecord\)\s*\(?buffer\[2\]\)?\s*\)\s*\{", r"GdsiiRecord::\w+", res_enum, "gds_info")))
+    group("gds_info-switch", g_gds_info)
+
+    def g_rawcells(w):
+        raw0 = strip_comments(read("src/rawcell.cpp"))
+        b = func_body(raw0, r"Map<RawCell\*>\s+read_rawcells\s*\(")
+        w("Definition read_rawcells_case_groups : list (list N) := %s." % fmt(
+            switch_groups(b, r"switch\s*\(\s*buffer\[2\]\s*\)\s*\{", r"0x[0-9A-Fa-f]+|\d+|GdsiiRecord::\w+", lambda l: res_enum(l) if "::" in l else res_hex(l), "read_rawcells")))
+    group("read_rawcells-switch", g_rawcells)
+
     # --- record switch of read_oas
-    orec = dict(enums["OasisRecord"])
     def res_orec(lbl):
+        orec = dict(enums["OasisRecord"])
         nm = lbl.split("::")[-1]
         if nm not in orec:
             raise GenError("unknown OasisRecord member " + nm)
         return orec[nm]
-    b = func_body(lib0, r"Library\s+read_oas\s*\(")
-    w("Definition read_oas_case_groups : list (list N) := %s." % fmt(
-        switch_groups(b, r"switch\s*\(\s*record\s*\)\s*\{", r"OasisRecord::\w+", res_orec, "read_oas")))
-    w("")
+
+    def g_read_oas(w):
+        lib0 = strip_comments(read("src/library.cpp"))
+        b = func_body(lib0, r"Library\s+read_oas\s*\(")
+        w("Definition read_oas_case_groups : list (list N) := %s." % fmt(
+            switch_groups(b, r"switch\s*\(\s*record\s*\)\s*\{", r"OasisRecord::\w+", res_orec, "read_oas")))
+    group("read_oas-switch", g_read_oas)
+
     # --- CTRAPEZOID table of read_oas
-    lib = strip_comments(read("src/library.cpp"))
-    m = re.search(r"case\s+OasisRecord::CTRAPEZOID\s*:", lib)
-    if not m:
-        raise GenError("CTRAPEZOID case not found")
-    seg = lib[m.end():]
-    m2 = re.search(r"case\s+OasisRecord::CIRCLE\s*:", seg)
-    if not m2:
-        raise GenError("end of CTRAPEZOID case not found")
-    seg = seg[:m2.start()]
-    rows = parse_ctrapezoid(seg)
-    w("(* CTRAPEZOID table of read_oas: per type, the vertex offsets from (x,y) as linear forms")
-    w("   in (w,h): each coordinate is (cw, ch) meaning cw*w + ch*h; *)")
-    w("Definition ctrap_table : list (N * list ((Z * Z) * (Z * Z))) := [")
-    lines = []
-    for t, verts in rows:
-        vs = "; ".join("((%d, %d), (%d, %d))%%Z" % (a, b_, c, d) for (a, b_), (c, d) in verts)
-        lines.append("  (%d, [%s])" % (t, vs))
-    w(";\n".join(lines))
-    w("].")
-    w("")
-    return "\n".join(out) + "\n"
+    def g_ctrap(w):
+        lib = strip_comments(read("src/library.cpp"))
+        m = re.search(r"case\s+OasisRecord::CTRAPEZOID\s*:", lib)
+        if not m:
+            raise GenError("CTRAPEZOID case not found")
+        seg = lib[m.end():]
+        m2 = re.search(r"case\s+OasisRecord::CIRCLE\s*:", seg)
+        if not m2:
+            raise GenError("end of CTRAPEZOID case not found")
+        seg = seg[:m2.start()]
+        rows = parse_ctrapezoid(seg)
+        w("(* CTRAPEZOID table of read_oas: per type, the vertex offsets from (x,y) as linear forms")
+        w("   in (w,h): each coordinate is (cw, ch) meaning cw*w + ch*h; *)")
+        w("Definition ctrap_table : list (N * list ((Z * Z) * (Z * Z))) := [")
+        lines = []
+        for t, verts in rows:
+            vs = "; ".join("((%d, %d), (%d, %d))%%Z" % (a, b_, c, d) for (a, b_), (c, d) in verts)
+            lines.append("  (%d, [%s])" % (t, vs))
+        w(";\n".join(lines))
+        w("].")
+    group("ctrapezoid-table", g_ctrap)
+    return "\n".join(out) + "\n", partial
 
 
 def parse_ctrapezoid(seg):
@@ -369,7 +429,7 @@ def parse_ctrap_case(cb, t):
 
 def main():
     try:
-        text = gen()
+        text, partial = gen()
     except GenError as e:
         print("GEN-ERROR: %s" % e)
         return 2
@@ -384,6 +444,8 @@ def main():
         print("generated (changed): %s" % out)
     else:
         print("generated (unchanged): %s" % out)
+    for name, err in partial:
+        print("GEN-PARTIAL: group %s not generated: %s" % (name, err))
     return 0
 
 
